@@ -197,7 +197,11 @@ def _loads_xml(string):
 
             ephem = []
             orbit_mapping = {}
-            for statevector in data_tag["stateVector"]:
+            statevectors = data_tag["stateVector"]
+            if not isinstance(statevectors, list):
+                statevectors = [statevectors]
+
+            for statevector in statevectors:
                 orb = StateVector(
                     [
                         decode_unit(statevector, "X", "km"),
@@ -216,7 +220,11 @@ def _loads_xml(string):
                 ephem.append(orb)
                 orbit_mapping[orb.date] = orb
 
-            for cov in data_tag.get("covarianceMatrix", []):
+            covs = data_tag.get("covarianceMatrix", [])
+            if not isinstance(covs, list):
+                covs = [covs]
+
+            for cov in covs:
                 date = parse_date(cov["EPOCH"].text, metadata["TIME_SYSTEM"].text)
                 if date in orbit_mapping:
                     orb = orbit_mapping[date]
